@@ -149,7 +149,7 @@ class C13(Check):
     level = "exploration"
     rule = (
         "seeds x randomness parameters (probabilities 0..1(+), mandatory/optional session and service lists incl. empty) x subsets of the nine behaviour "
-        "switches (stratified: all on, each single one off, then random subsets) x histories of 1-80 requests: random sid + 0-3 bytes, every known sid with "
+        "switches (stratified: all on, each single one off, then random subsets) x histories of 1-80 requests (every 25th plan an exhaustive sweep: every service id 0x00-0xFF with 0-3 / 5 payload bytes, or every sub-function byte 0x00-0xFF of one sub-function service, after a state-changing prefix): random sid + 0-3 bytes, every known sid with "
         "short payloads, session changes offered / not offered, seed/key pairs (right and wrong key), resets, suppress-bit variants, structured valid requests, "
         "idle gaps below / above the 10 s inactivity limit; 20 % of runs through the full tcp-lines stack with two client connections. "
         "non-trivial = at least one of rules 1-4 fired or a state change happened; distinct = sequence of (rule that decided, reply class, state change)."
@@ -195,6 +195,21 @@ class C13(Check):
         except Exception:  # noqa: BLE001
             services = {1: {0x10: [1]}}
         plan["ops"] = gen_history(rng, services, rng.choice([1, 5, 20, 40, 80] if tier == "quick" else [20, 80, 150, 300]))
+        # exhaustive sweeps (every 25th plan): after a short random prefix that may change the state, EVERY service id
+        # 0x00-0xFF with a payload of 0-3 bytes, or every sub-function byte 0x00-0xFF of one sub-function service
+        if index % 25 == 10:
+            prefix = plan["ops"][: rng.choice([0, 3, 8])]
+            k = (index // 25) % 8
+            if k < 5:
+                ln = k if k < 4 else 5
+                fill = rng.choice([0x00, 0x01, 0xFF, rng.getrandbits(8)])
+                sweep = [{"pdu": bytes([sid] + [fill] * ln).hex(), "gap": 0} for sid in range(256)]
+            else:
+                sid = rng.choice(sorted(SUBFUNC))
+                tail = [rng.getrandbits(8) for _ in range(rng.choice([0, 0, 1, 2]))]
+                sweep = [{"pdu": bytes([sid, sub] + tail).hex(), "gap": 0} for sub in range(256)]
+            plan["ops"] = prefix + sweep
+            plan["sweep"] = True
         return plan
 
     def simplify(self, plan: dict[str, Any]) -> Any:
@@ -358,6 +373,8 @@ class C13(Check):
                 comp.append(s)
         off = "".join("0" if not sw[s] else "1" for s in SWITCHES)
         res["shape"] = f"{off}|{'stack' if plan['stack'] else 'direct'}|" + "".join(comp[:40])
+        if plan.get("sweep"):
+            bump(res["probes"], "exhaustive_sweep_of_256_service_ids_or_sub_functions")
         res["nontrivial"] = any(s.startswith("x") or s == "S" for s in shape)
         for s in SWITCHES:
             if not sw[s]:
